@@ -325,6 +325,9 @@ def run(ck, fb, fbd):
     l = fns[("get_halfface_vertices", ("OpenVolumeMesh::HFH", "OpenVolumeMesh::HEH"))]
     for b, i, n in l.valid_rets():
         x = l.cn.s(n.get("x"))
+        if not x.startswith("get_halfface_vertices(P0, "):
+            ck.cannot_judge("%s: get_halfface_vertices(hf, he) no longer delegates to the (hf, start vertex) form: rule K.match does not know this formulation - re-audit" % l.f.loc(n))
+            continue
         judge(x in ("get_halfface_vertices(P0, from_vertex_handle(P1))", "get_halfface_vertices(P0, halfedge(P1).from_vertex())"), l, n, "get_halfface_vertices(hf, he) starts at the from-vertex of he (returned %s)" % x, "ghv3")
 
     # is_incident(face, edge)
